@@ -131,7 +131,7 @@ def operandTerms (w : Wiring) : List Term :=
     absence of `bad` in the specification, which needs `Inv g` (every edge source is a live node
     placed earlier — `toposort_sound`) and is not proved here. -/
 theorem encode_wellscoped_partial {g : GraphVal} {o : Opts} {s : Skeleton} {order : List Nat} {agg : Agg}
-    (wf : WF g) (ht : toposort g = .ok order) (hagg : aggOf g (importsOf g order) = some agg) (hok : AggOk g agg)
+    (wf : WF g) (ht : toposort g = .ok order) (hagg : aggOf g (importsOf g order) = some agg) (hok : AggHyp g agg)
     (he : encode g o = .ok s) :
     operandTerms (wiring s) = operandTerms (specWiringWith g agg.canonical o.define (others g order)) := by
   have h := wiring_encode_partial wf ht hagg hok he
